@@ -772,3 +772,181 @@ func TestVxC17LostDuringFill(t *testing.T) {
 		Run: func(ci interface{}, k *vstats.Case) error { return vxRunC17LostFill(ci.(*vxC17LostFillCase), k) },
 	})
 }
+
+// ---------------------------------------------------------------------------------------------
+// C06, a connection that fails while one caller is inside a Write that does not return (the peer has stopped
+// reading; with Timeout 0 there is no write deadline): closing the connection must not wait for that caller -
+// it is the closing of the socket that frees it.
+
+type vxC06BlockCase struct {
+	Proto    int  `json:"proto"`
+	Coalesce bool `json:"coalesce"`
+	Others   int  `json:"others"` // requests already in flight (written, unanswered) when the Write blocks
+}
+
+type vxBlockDialer struct {
+	cl    *vnode.Cluster
+	mu    sync.Mutex
+	conns []*vxBlockConn
+}
+
+type vxBlockConn struct {
+	net.Conn
+	armed   int32
+	entered int32
+	closed  chan struct{}
+	once    sync.Once
+}
+
+func (d *vxBlockDialer) DialContext(ctx context.Context, network, addr string) (net.Conn, error) {
+	c, err := d.cl.DialContext(ctx, network, addr)
+	if err != nil {
+		return nil, err
+	}
+	bc := &vxBlockConn{Conn: c, closed: make(chan struct{})}
+	d.mu.Lock()
+	d.conns = append(d.conns, bc)
+	d.mu.Unlock()
+	return bc, nil
+}
+
+func (c *vxBlockConn) Write(p []byte) (int, error) {
+	if atomic.LoadInt32(&c.armed) == 1 {
+		atomic.AddInt32(&c.entered, 1)
+		<-c.closed // the peer has stopped reading: only closing the socket ends this Write
+		return 0, net.ErrClosed
+	}
+	return c.Conn.Write(p)
+}
+
+func (c *vxBlockConn) Close() error {
+	c.once.Do(func() { close(c.closed) })
+	return c.Conn.Close()
+}
+
+func vxRunC06Block(c *vxC06BlockCase, k *vstats.Case) error {
+	if c.Proto < 1 || c.Proto > 5 || c.Others < 0 || c.Others > 4 {
+		return nil
+	}
+	cl := vnode.NewCluster(vxSpecs(1, 1))
+	node := cl.Nodes()[0]
+	node.Handler = func(rc *vnode.ReqCtx) {
+		if rc.Req.Kind == "QUERY" && rc.Req.Statement == "LIST held" {
+			return // never answered
+		}
+		rc.Reply(vxVoid())
+	}
+	d := &vxBlockDialer{cl: cl}
+	s, err := vxClusterConfig(cl, c.Proto, func(cfg *ClusterConfig) {
+		cfg.Dialer = d
+		cfg.Timeout = 0
+		cfg.WriteTimeout = 0
+		cfg.ConnectTimeout = 2 * time.Second
+		if c.Coalesce {
+			cfg.WriteCoalesceWaitTime = 200 * time.Microsecond
+		} else {
+			cfg.WriteCoalesceWaitTime = 0
+		}
+	}).CreateSession()
+	if err != nil {
+		return fmt.Errorf("harness: CreateSession: %v", err)
+	}
+	closedSession := false
+	defer func() {
+		if !closedSession {
+			go s.Close()
+		}
+	}()
+	pcs := vxPoolConns(s)
+	if len(pcs) != 1 {
+		return fmt.Errorf("harness: %d pool connections", len(pcs))
+	}
+	bc, ok := pcs[0].conn.(*vxBlockConn)
+	if !ok {
+		return fmt.Errorf("harness: pool connection is a %T", pcs[0].conn)
+	}
+	var nodeSide *vnode.ServerConn
+	for _, sc := range node.Conns() {
+		if net.Conn(sc.Client) == bc.Conn {
+			nodeSide = sc
+		}
+	}
+	if nodeSide == nil {
+		return fmt.Errorf("harness: node side of the pool connection not found")
+	}
+	results := make(chan error, c.Others+1)
+	for i := 0; i < c.Others; i++ {
+		go func() { results <- s.Query("LIST held").Exec() }()
+	}
+	for deadline := time.Now().Add(3 * time.Second); ; time.Sleep(time.Millisecond) {
+		n := 0
+		for _, l := range node.Log() {
+			if l.Req != nil && l.Req.Kind == "QUERY" && l.Req.Statement == "LIST held" {
+				n++
+			}
+		}
+		if n >= c.Others {
+			break
+		}
+		if time.Now().After(deadline) {
+			return fmt.Errorf("harness: the held requests did not reach the node")
+		}
+	}
+	atomic.StoreInt32(&bc.armed, 1)
+	go func() { results <- s.Query("LIST blocked").Exec() }()
+	for deadline := time.Now().Add(3 * time.Second); atomic.LoadInt32(&bc.entered) == 0; time.Sleep(time.Millisecond) {
+		if time.Now().After(deadline) {
+			return fmt.Errorf("harness: the blocked Write was not entered")
+		}
+	}
+	// the node reports a protocol error on stream 0: the driver gives the connection up
+	if err := nodeSide.Send(&cqlspec.Response{Kind: "ERROR", Version: c.Proto, Stream: 0, Code: cqlspec.ErrProtocol, Message: "vx: the node gives this connection up"}); err != nil {
+		return fmt.Errorf("harness: send: %v", err)
+	}
+	for i := 0; i < c.Others+1; i++ {
+		select {
+		case err := <-results:
+			if err == nil {
+				return fmt.Errorf("a request on a connection the node gave up succeeded")
+			}
+		case <-time.After(5 * time.Second):
+			select {
+			case <-bc.closed:
+				return fmt.Errorf("the node reported a protocol error on stream 0 while one caller was inside a Write that does not return; the socket was closed, yet %d of %d callers had not returned 5 s later", c.Others+1-i, c.Others+1)
+			default:
+			}
+			// free the process before reporting
+			bc.Close()
+			return fmt.Errorf("the node reported a protocol error on stream 0 while one caller was inside a Write that does not return (Timeout 0: no write deadline); 5 s later the driver has not closed the socket and %d of %d callers have not returned - closing waits for the caller that only the closing can free", c.Others+1-i, c.Others+1)
+		}
+	}
+	select {
+	case <-bc.closed:
+	case <-time.After(3 * time.Second):
+		bc.Close()
+		return fmt.Errorf("every caller returned, but the driver has not closed the socket of the connection the node gave up")
+	}
+	closedSession = true
+	done := make(chan struct{})
+	go func() { s.Close(); close(done) }()
+	select {
+	case <-done:
+	case <-time.After(10 * time.Second):
+		return fmt.Errorf("Session.Close did not return within 10 s (hang)")
+	}
+	k.NonTrivial()
+	k.Class(fmt.Sprintf("blocked writer: coalesce=%v others=%d", c.Coalesce, c.Others))
+	return nil
+}
+
+func TestVxC06BlockedWriter(t *testing.T) {
+	vx.Check(t, vx.Prop{
+		ID: "C06", Part: "TestVxC06BlockedWriter",
+		Rule: "protocol 1..5, Timeout 0 and no write timeout, write coalescing on or off, 0..4 requests in flight; one more caller enters a Write that returns only when the socket is closed (a peer that has stopped reading); the node then reports a protocol error on stream 0; oracle: within 5 s every caller has returned with an error and the driver has closed the socket; Session.Close returns; every case is non-trivial; distinct by the case",
+		Draw: func(t *rapid.T) interface{} {
+			return &vxC06BlockCase{Proto: rapid.IntRange(1, 5).Draw(t, "proto"), Coalesce: rapid.Bool().Draw(t, "coalesce"), Others: rapid.IntRange(0, 4).Draw(t, "others")}
+		},
+		New: func() interface{} { return &vxC06BlockCase{} },
+		Run: func(ci interface{}, k *vstats.Case) error { return vxRunC06Block(ci.(*vxC06BlockCase), k) },
+	})
+}
